@@ -73,6 +73,11 @@ pub fn c09_scenario(seed: u64, idx: u64) -> Scenario {
                 hs.push(("Host".into(), format!("{}:7878", host)));
             }
         }
+        // conditional and negotiation headers: whatever they make GET do, HEAD has to do alike
+        if rng.chance(1, 3) {
+            let (n, v) = *rng.pick(super::real::CONDITIONAL_HEADERS);
+            hs.push((n.to_string(), v.to_string()));
+        }
         // header lines in any order (the same order in all three requests of the group)
         let mut order_rng = rng.fork();
         order_rng.shuffle(&mut hs);
@@ -85,6 +90,17 @@ pub fn c09_scenario(seed: u64, idx: u64) -> Scenario {
         let mut o = Conn::simple(gid + 2, gid as u32 + 2, req("OPTIONS", &p, &hs2, b""), "options");
         o.twin = Some(gid);
         sc.conns.push(o);
+        // now and then the client comes back and revalidates with what the server gave it
+        if rng.chance(1, 4) {
+            let g2 = sc.conns.len();
+            let mut a = Conn::simple(g2, g2 as u32, req("GET", &p, &hs2, b""), "get_revalidate");
+            a.revalidate = Some(gid);
+            sc.conns.push(a);
+            let mut h = Conn::simple(g2 + 1, g2 as u32 + 1, req("HEAD", &p, &hs2, b""), "head_revalidate");
+            h.twin = Some(g2);
+            h.revalidate = Some(gid);
+            sc.conns.push(h);
+        }
     }
     sc
 }
@@ -105,7 +121,7 @@ pub fn c11_scenario(seed: u64, idx: u64) -> Scenario {
     let origins = model_origins(&sc.env);
     let n = rng.range(2, 8);
     for i in 0..n {
-        let origin: Option<String> = match rng.below(13) {
+        let origin: Option<String> = match rng.below(14) {
             0 => None,
             1 | 2 | 3 if !origins.is_empty() => Some(origins[rng.below(origins.len())].clone()),
             4 if !origins.is_empty() && origins.iter().all(|o| o.len() >= 4 && o.is_ascii()) => {
@@ -135,6 +151,11 @@ pub fn c11_scenario(seed: u64, idx: u64) -> Scenario {
                     _ => format!("{} ", o),
                 })
             }
+            12 if !origins.is_empty() => {
+                // a configured origin with something appended: another origin (or none at all)
+                let o = &origins[rng.below(origins.len())];
+                Some(format!("{}{}", o, rng.pick(&[":80", ":443", ":8080", ".evil.example", "/", "/path", "#", "?", "@evil.example", "%20", ".", "x"])))
+            }
             _ => Some(ORIGINS[rng.below(ORIGINS.len())].to_string()),
         };
         let method = *rng.pick(&["GET", "GET", "OPTIONS", "OPTIONS", "HEAD", "POST", "PUT", "DELETE", "PATCH"]);
@@ -144,9 +165,10 @@ pub fn c11_scenario(seed: u64, idx: u64) -> Scenario {
             hs.push(("Origin".into(), o));
         }
         if method == "OPTIONS" && rng.chance(2, 3) {
-            hs.push(("Access-Control-Request-Method".into(), rng.pick(&["GET", "POST", "DELETE"]).to_string()));
+            let m = if rng.chance(1, 4) { rng.pick(super::real::EXTENSION_METHODS).to_string() } else { rng.pick(&["GET", "POST", "DELETE", "PUT", "PATCH", "HEAD", "OPTIONS"]).to_string() };
+            hs.push(("Access-Control-Request-Method".into(), m));
             if rng.chance(1, 2) {
-                hs.push(("Access-Control-Request-Headers".into(), "X-Custom, Content-Type".into()));
+                hs.push(("Access-Control-Request-Headers".into(), rng.pick(&["X-Custom, Content-Type", "authorization", "x-nested", "*", "", "X-A,,X-B", "content-type;q=1"]).to_string()));
             }
         }
         if let Some((_, o)) = hs.iter().find(|(n, _)| n == "Origin").cloned() {
@@ -293,10 +315,43 @@ pub fn c13_scenario(seed: u64, idx: u64) -> Scenario {
     t.entries.push(Entry { path: format!("outer/{}/dangling-up.txt", rootname), kind: EntryKind::Symlink("../../nowhere/x.txt".into()) });
     t.entries.push(Entry { path: format!("outer/{}/out.txt", rootname), kind: EntryKind::Symlink("../sentinel.txt".into()) });
     t.entries.push(Entry { path: format!("outer/{}/slashes.txt", rootname), kind: EntryKind::Symlink("real//target.txt".into()) });
+    // what owners and tools leave in a served directory: partial downloads, backups, text files with
+    // a byte order mark, compressed siblings, dot files
+    let r = format!("outer/{}", rootname);
+    for (name, c) in [
+        ("download.iso.part", Content::Gen { marker: String::new(), len: 4000, seed: 7, binary: true }),
+        ("file.txt.part", Content::Gen { marker: String::new(), len: 120, seed: 8, binary: true }),
+        ("d/video.mp4.part", Content::Gen { marker: String::new(), len: 700, seed: 9, binary: true }),
+        ("settings.json", super::real::magic_content(&mut rng, Some("bom8"))),
+        ("readme.txt", super::real::magic_content(&mut rng, Some("bom8txt"))),
+        ("d/start.html", super::real::magic_content(&mut rng, Some("bom8txt"))),
+        ("feed.xml", super::real::magic_content(&mut rng, Some("bom16le"))),
+        ("page.html.bak", Content::Literal("old page\n".into())),
+        ("notes.txt~", Content::Literal("editor backup\n".into())),
+        (".htaccess", Content::Literal("Deny from all\n".into())),
+        ("rws.config.toml", Content::Literal("[cors]\nallow_all = true\n".into())),
+    ] {
+        t.entries.push(Entry { path: format!("{}/{}", r, name), kind: EntryKind::File(c) });
+    }
+    let all_files: Vec<String> = t.entries.iter().filter(|e| matches!(e.kind, EntryKind::File(_)) && e.path.starts_with(&format!("{}/", r))).map(|e| format!("/{}", &e.path[r.len() + 1..])).collect();
     sc.tree = t;
     let n = rng.range(1, 6);
     for i in 0..n {
-        let (class, bytes) = match rng.below(10) {
+        let (class, bytes) = match rng.below(13) {
+            10 => {
+                // any file of the tree, any reading method, now and then with headers a cache or browser adds
+                let p = rng.pick(&all_files).clone();
+                let m = *rng.pick(&["GET", "GET", "HEAD", "OPTIONS"]);
+                let b = req(m, &p, &[], b"");
+                ("read_any_file", if rng.chance(1, 3) { super::real::decorate_real(&mut rng, &b, false) } else { b })
+            }
+            11 | 12 => {
+                // upload announcements that name what is (almost) there already, with sizes around the real ones
+                let name = *rng.pick(&["download.iso", "file.txt", "d/video.mp4", "video.mp4", "download.iso.part", "settings.json", "page.html", "notes.txt", "probe.txt", "readme.txt", ".htaccess", "rws.config.toml"]);
+                let size = *rng.pick(&["0", "1", "10", "119", "120", "121", "699", "700", "3999", "4000", "4001", "999999999", "-1", "", "x"]);
+                let target = format!("{}?name={}&size={}&lastModified={}", FILE_UPLOAD, name.replace('/', "%2F"), size, rng.pick(&["1700000000", "0", "1", "x"]));
+                ("upload_announcement", req(*rng.pick(&["POST", "POST", "GET", "PUT"]), &target, &[("Content-Length", "0")], b""))
+            }
             0..=4 => ("upload_shaped", upload_shaped(&mut rng)),
             7 => {
                 // companion-file conventions: an existing path plus a well-known suffix
